@@ -165,12 +165,13 @@ Section Coordinates.
   Qed.
 End Coordinates.
 
+
 (* non-vacuity: two counter-clockwise triangles sharing the edge 0-2; create_edges reports four boundary edges and one
    interior edge *)
 Definition ex_two_tris : list (list nat) := [[0; 1; 2]; [0; 2; 3]].
 Lemma ex_two_tris_ok :
   NoDup (all_faces ex_two_tris) /\ nondegenerate ex_two_tris
-  /\ boundary_faces ex_two_tris = [(0, 1); (3, 0); (1, 2); (2, 3)] /\ interior_faces ex_two_tris = [(2, 0)].
+  /\ boundary_faces ex_two_tris = [(0, 1); (3, 0); (1, 2); (2, 3)] /\ interior_faces ex_two_tris = [(0, 2)].
 Proof.
   split; [|split; [|split; reflexivity]].
   - cbv [ex_two_tris all_faces side map app nth Nat.modulo Nat.divmod Nat.add fst snd].
